@@ -459,7 +459,7 @@ def run_check(prop, tier='quick', seed=0, replay=None, budget=None):
         print('KNOWN-FINDING: property=%s %s: %s' % (pid, fid, f['what']))
 
     rc = 0
-    if crashes:
+    if crashes and not spec_bad:
         c, o = crashes[0]
         payload = {'property': pid, 'stage': 'harness', 'case': c, 'impl_obs': o,
                    'what': 'the harness could not drive the implementation on this case'}
@@ -467,6 +467,8 @@ def run_check(prop, tier='quick', seed=0, replay=None, budget=None):
         print('VIOLATION property=%s replay=%s no-failing-input-found' % (pid, p))
         rc = 1
     elif spec_bad:
+        if crashes:
+            notes.append('the harness could not drive the implementation on %d further cases' % len(crashes))
         c, o = spec_bad[0]
         c2, o2 = shrink(prop, c, o, use_model, lambda cc, oo, vv: vv == 'VBoth' or not matches_open(cc, oo))
         payload = {'property': pid, 'seed': seed, 'case': c2, 'impl_obs': o2, 'original_case': c,
